@@ -40,6 +40,51 @@ type SpecEnv struct {
 	entryParams bool    // postconditions: a parameter name denotes the value the caller passed, even if the body reassigned it
 	callK       int64   // at a call site: references above this were allocated by the callee
 	univ        []*Term // enclosing bound variables that stay quantified (skolems below them are functions)
+	// per-iteration view of ghost state (loop invariants): ghosts whose base is in viewBases are
+	// counted from the head of the iteration, whose ghost state is viewHead
+	viewBases map[string]bool
+	viewHead  map[string]Val
+}
+
+// ghost reads a ghost variable, through the per-iteration view when one is set.
+func (env *SpecEnv) ghost(key string) (Val, bool) {
+	v, ok := env.st.ghosts[key]
+	if env.viewBases == nil {
+		return v, ok
+	}
+	base := ghostBase(key)
+	if !env.viewBases[base] {
+		return v, ok
+	}
+	cntKey, flagKey := ghostKeys(base)
+	if key != cntKey && key != flagKey {
+		return v, ok
+	}
+	cnt := func(m map[string]Val) *Term {
+		if c, ok := m[cntKey].(VInt); ok && c.T != nil {
+			return c.T
+		}
+		return IntLit(0)
+	}
+	now, head := cnt(env.st.ghosts), cnt(env.viewHead)
+	if key == cntKey {
+		if now == head {
+			return VInt{T: IntLit(0)}, true
+		}
+		return VInt{T: Sub(now, head)}, true
+	}
+	if now == head {
+		return VInt{T: tFalse}, true
+	}
+	return VInt{T: Gt(now, head)}, true
+}
+
+// ghostKeys: the counter and (for observers) the was-called flag of a ghost base.
+func ghostKeys(base string) (cnt, flag string) {
+	if strings.HasPrefix(base, "obs:") {
+		return base[4:] + ".count", base[4:]
+	}
+	return base + ".count", ""
 }
 
 func (x *Explorer) specEnv(st *State, f *Frame, con *Contract) *SpecEnv {
@@ -187,6 +232,22 @@ func (env *SpecEnv) withHeap(h map[string]*Term, f func()) {
 }
 
 func (env *SpecEnv) lookupLocal(name string) (Val, bool) {
+	if v, ok := env.lookupLocal1(name); ok {
+		return v, true
+	}
+	// the variable may have been renamed since the contract was written
+	if env.frame != nil && env.frame.fn != nil {
+		if alt := env.st.eng.rebindLocal(env.frame.fn, name); alt != "" && alt != name {
+			if v, ok := env.lookupLocal1(alt); ok {
+				env.st.note("local " + name + " of " + env.st.eng.fnKey(env.frame.fn) + " no longer exists: clauses naming it are read with " + alt + " (same type, new name)")
+				return v, true
+			}
+		}
+	}
+	return nil, false
+}
+
+func (env *SpecEnv) lookupLocal1(name string) (Val, bool) {
 	f := env.frame
 	if f == nil {
 		return nil, false
@@ -336,7 +397,7 @@ func (env *SpecEnv) ident(e *SExpr) Val {
 	if v, ok := env.vars[n]; ok {
 		return v
 	}
-	if v, ok := env.st.ghosts[n]; ok {
+	if v, ok := env.ghost(n); ok {
 		return v
 	}
 	if env.entryParams {
@@ -533,7 +594,7 @@ func (env *SpecEnv) sel(e *SExpr) Val {
 	// package-qualified name or observer field
 	if b := e.Args[0]; b.Kind == "ident" {
 		if _, isBound := env.bound[b.Name]; !isBound {
-			if v, ok := env.st.ghosts[b.Name+"."+e.Name]; ok {
+			if v, ok := env.ghost(b.Name + "." + e.Name); ok {
 				return v
 			}
 			_, isVar := env.vars[b.Name]
@@ -1005,10 +1066,22 @@ func (env *SpecEnv) call(e *SExpr) Val {
 			env.fail("%s(\"channel name\")", name)
 		}
 		key := strings.TrimSuffix(name, "Count") + ":" + args[0].Name + ".count"
-		if v, ok := env.st.ghosts[key].(VInt); ok {
-			return v
+		if v, ok := env.ghost(key); ok {
+			if vi, isInt := v.(VInt); isInt {
+				return vi
+			}
 		}
 		return VInt{T: IntLit(0)}
+	case "recvOpen":
+		// recvOpen("channel name"): the last `v, ok := <-ch` (or range step) on it got a value;
+		// false means the channel was found closed and drained
+		if len(args) != 1 || args[0].Kind != "str" {
+			env.fail("recvOpen(\"channel name\")")
+		}
+		if v, ok := env.st.ghosts["recv:"+args[0].Name+".ok"]; ok {
+			return v
+		}
+		return VInt{T: env.st.freshSym("never_received", SBool)}
 	case "sent":
 		if len(args) != 1 || args[0].Kind != "str" {
 			env.fail("sent(\"channel name\")")
@@ -1119,9 +1192,28 @@ func (env *SpecEnv) call(e *SExpr) Val {
 			return VInt{T: tTrue}
 		}
 		return VInt{T: Select(env.st.heapGet("model:Timer.armed", ArrSort(SBool)), v.Ref)}
+	case "xor":
+		// xor(a, b): Go's a ^ b on unsigned operands (uninterpreted, as in the code's own translation)
+		return VInt{T: UF("bitxor", SInt, env.evalInt(args[0]), env.evalInt(args[1]))}
+	case "jsonInt":
+		// jsonInt(b): the integer that json.Unmarshal decodes from the bytes b (when it succeeds)
+		return VInt{T: UF("jsonint", SInt, env.evalInt(args[0]))}
+	case "strOf":
+		// the string string(b) for byte content b (val of a byte slice)
+		return VInt{T: UF("str_of_bytes", SInt, env.evalInt(args[0]))}
 	case "bytesOf":
 		// the content of []byte(s) for a string s
 		return VInt{T: UF("bytes_of_str", SInt, env.evalInt(args[0]))}
+	case "decStr":
+		// decStr(n): the decimal rendering of the uint64 n (strconv.FormatUint(n, 10)); injective
+		n := env.evalInt(args[0])
+		bx := UF("box:uint64", SInt, n)
+		r := UF("decstr", SInt, bx)
+		if len(env.bound) == 0 {
+			env.st.addFact(Eq(UF("unbox:uint64", SInt, bx), n))
+			env.st.addFact(Eq(UF("undecstr", SInt, r), bx))
+		}
+		return VInt{T: r}
 	case "decBytes":
 		// the bytes of the decimal rendering of a uint64 (as produced by []byte(fmt.Sprintf("%d", n)))
 		n := env.evalInt(args[0])
@@ -1143,6 +1235,10 @@ func (env *SpecEnv) call(e *SExpr) Val {
 		env.st.addFact(Implies(Gt(n, IntLit(0)), Eq(t, Add(f(prev), Select(row, Add(sl.Off, prev))))))
 		env.st.addFact(Implies(Ge(n, IntLit(0)), Eq(f(Add(n, IntLit(1))), Add(t, Select(row, Add(sl.Off, n))))))
 		env.st.addFact(Implies(Ge(n, IntLit(0)), Ge(t, IntLit(0))))
+		// the first few values outright (what a loop unrolled a few times needs)
+		for k := int64(0); k <= unrollBound+1; k++ {
+			env.st.addFact(Eq(f(IntLit(k+1)), Add(f(IntLit(k)), Select(row, Add(sl.Off, IntLit(k))))))
+		}
 		return VInt{T: t}
 	case "seq":
 		sl, ok := env.ev(args[0]).(VSlice)
